@@ -164,6 +164,8 @@ impl Prop for C16Prop {
     }
     fn generate(&self, stream: &str, t: &mut Tape) -> Option<Case> {
         let cfg = Cfg::gen_unsaturated(t);
+        // decided first: the program generator below may use up the tape
+        let form = (*t.pick(&["file", "dir", "glob", "files-from"])).to_string();
         let main_text = if stream == "big" {
             // a large, flat file: many small routines with irregular spacing (no deep nesting:
             // stack exhaustion on deep nesting is C04's open finding F-C04-stack)
@@ -247,7 +249,6 @@ impl Prop for C16Prop {
         // decoys
         files.push(FileSpec { path: "src/note.txt".into(), text: "x   :=   1;\n".into(), bom: false, kind: "good".into() });
         files.push(FileSpec { path: "src/a.pas.x".into(), text: "y   :=   2;\n".into(), bom: false, kind: "good".into() });
-        let form = (*t.pick(&["file", "dir", "glob", "files-from"])).to_string();
         if let Some(name) = tricky {
             if form == "file" || form == "files-from" {
                 files.push(FileSpec { path: name.into(), text: "z   :=   3 ;\n".into(), bom: false, kind: "good".into() });
@@ -473,6 +474,8 @@ impl Prop for C16Prop {
             }
         }
         ctx.class(&format!("form:{}", scn.form));
+        ctx.class_if(scn.files.iter().any(|f| !f.path.starts_with("src/")), "has-root-level-name(#, blank, ;, !, @, ~)");
+        ctx.class_if(scn.files.iter().any(|f| f.path.contains("badbig")), "has-large-malformed-file");
         ctx.class_if(any_fail, "has-failing-file");
         ctx.class_if(main.bom, "main-has-bom");
         let shorter = r_main.len() < content.len();
